@@ -402,10 +402,146 @@ def h_conn(c, op='send', conn_state='NEGOTIATING_TRANSFER', old_kbps=0, new_kbps
 
 def asyncio_sleep(loop):
     import asyncio as _a
+    from asyncio import events as _ev
 
     def sleep(d):
-        return _a.sleep(d)
+        # inside the virtual loop: the real asyncio.sleep; driven by hand (poll): a bare suspension point
+        return _a.sleep(d) if _ev._get_running_loop() is not None else _Sleep(d)
     return sleep
+
+
+# ------------------------------------------------------------------------------
+# H2c: concurrent callers whose take_tokens coroutines stay alive across their sleeps
+# ------------------------------------------------------------------------------
+
+def h_callers(c, n=2, order=(0, 1, 0, 1), kbps=1, low=False):
+    """n connections share the limiter; every caller keeps its real take_tokens coroutine across suspensions (what it
+    does AFTER a sleep is executed too).  Which caller is scheduled at each step is a discriminant; the instants are
+    symbolic: non-decreasing, and a sleeping caller is resumed no earlier than the end of the sleep it asked for."""
+    hints(c, kbps * 1024)
+    with Env(c.symbolic) as env:
+        lim = rl.RateLimiter.create_limiter(kbps)
+        L = lim.limit_bps
+        b0 = c.fresh_int('bucket', 0, MINB - 1 if low else None)
+        c.assume(b0 <= L)
+        r0 = c.fresh_real('last_refill', lo=0)
+        lim.bucket, lim.last_refill = b0, r0
+        _arbitrary_aux_state(c, lim, r0)
+        t = r0
+        callers = [{'co': None, 'wake': None} for _ in range(n)]
+        grants, times = [], []
+        for s_, i in enumerate(order):
+            cal = callers[i]
+            tn = _clock(c, f't{s_}', t)
+            if cal['wake'] is not None:
+                c.assume(tn >= cal['wake'])
+            t = tn
+            env.now = t
+            if cal['co'] is None:
+                cal['co'] = lim.take_tokens()
+            try:
+                r = cal['co'].send(None)
+            except StopIteration as e:
+                cal['co'], cal['wake'] = None, None
+                grants.append(e.value)
+                times.append(t)
+                c.check(lim.bucket >= 0, 'bucket_nonneg_after_take', sig=['callers', n])
+                c.check(e.value == MINB, 'grant_size', sig=['callers'])
+            else:
+                c.check(r[1] >= rl.INTERVAL, 'sleeps_interval', sig=['callers'])
+                cal['wake'] = t + r[1]
+        c.reach('callers_end')
+        for cal in callers:
+            if cal['co'] is not None:
+                cal['co'].close()
+        k = len(grants)
+        if k:
+            c.reach('callers_granted')
+        pot = symex.sym_max(0, MINB * (lim.bucket // MINB)) if c.symbolic else 0
+        for i in range(k):
+            total = sum(grants[i:]) + pot
+            c.check(_exact(total) <= _exact(L) * (_exact(times[-1]) - _exact(times[i])) + _exact(L), 'window_bound',
+                    sig=['callers', n], info={'i': i, 'grants': k})
+
+
+# ------------------------------------------------------------------------------
+# H2d: tokens taken before a limit change must not come back into the new limiter
+# ------------------------------------------------------------------------------
+
+class _PendingReader:
+    """a read that is still outstanding when the limit changes; completed by the harness with a SHORT chunk"""
+
+    def __init__(self, loop):
+        self.loop = loop
+        self.asked = []
+        self.fut = None
+
+    async def read(self, n):
+        self.asked.append(n)
+        self.fut = self.loop.create_future()
+        return await self.fut
+
+
+def h_refund(c, old_kbps=0, new_kbps=1, drain=9, after=2):
+    """connection A sits in a pending read (tokens already taken from the limiter in force) while the download limit
+    is changed through the real Network setter; another connection B drains the new limiter's initial burst; then
+    A's read completes with a short chunk; then B polls again.  Bytes moved since the change + what the bucket can
+    still hand out at the last instant must fit the window bound of the new limit."""
+    hints(c, new_kbps * 1024, old_kbps * 1024)
+    loop = VLoop()
+    with Env(c.symbolic) as env:
+        rl.__dict__['asyncio'] = types.SimpleNamespace(sleep=asyncio_sleep(loop))
+        fake_net = types.SimpleNamespace(_upload_rate_limiter=None, _download_rate_limiter=None, peer_connections=[])
+        conn = PeerConnection('1.2.3.4', 1234, fake_net, connection_type=PeerConnectionType.FILE)
+        conn.state = ConnectionState.CONNECTED
+        conn.connection_state = PeerConnectionState.TRANSFERRING
+        reader = _PendingReader(loop)
+        conn._reader, conn._writer = reader, _FakeWriter([])
+        Network.set_download_speed_limit(fake_net, old_kbps)
+        fake_net.peer_connections.append(conn)
+        conn.download_rate_limiter = fake_net._download_rate_limiter
+        t0 = c.fresh_real('t_change', lo=1)
+        env.now = t0
+        old = fake_net._download_rate_limiter
+        if type(old) is rl.LimitedRateLimiter:
+            old.bucket, old.last_refill = old.limit_bps, t0
+            _arbitrary_aux_state(c, old, t0)
+        received = []
+        task = loop.spawn(conn.receive_file(_FakeFile(0), filesize=10**9, callback=lambda d: received.append(len(d))))
+        loop.run_ready()
+        if reader.fut is None:
+            raise symex.HarnessError('connection A never reached its read')
+        Network.set_download_speed_limit(fake_net, new_kbps)
+        lim = fake_net._download_rate_limiter
+        L = lim.limit_bps
+        moved = []
+        t1 = _clock(c, 't_drain', t0)
+        for _ in range(drain):
+            moved.append(poll(lim, env, t1))
+        c.reach('drained')
+        # A's outstanding read completes with one byte
+        t2 = _clock(c, 't_short', t1)
+        env.now = t2
+        reader.fut.set_result(bytes(1))
+        loop.run_ready()
+        c.check(conn.download_rate_limiter is lim, 'connection_uses_current_limiter', sig=['refund'])
+        t_last = t2
+        for j in range(after):
+            t_last = _clock(c, f't_after{j}', t_last)
+            moved.append(poll(lim, env, t_last))
+        c.reach('refund_end')
+        pot = symex.sym_max(0, MINB * (lim.bucket // MINB)) if c.symbolic else 0
+        if not c.symbolic:
+            for _ in range(int(L) // MINB + 2):
+                g = poll(lim, env, t_last)
+                if g == 0:
+                    break
+                pot += g
+        total = sum(moved) + sum(received[1:]) + pot
+        c.check(_exact(total) <= _exact(L) * (_exact(t_last) - _exact(t0)) + _exact(L), 'window_bound',
+                sig=['refund', old_kbps, new_kbps], info={'moved': repr(sum(moved))})
+        task.cancel()
+        loop.cleanup()
 
 
 # ------------------------------------------------------------------------------
@@ -528,7 +664,7 @@ META = {
               'Network instance -> SimpleNamespace with the three attributes the two setters touch'],
     'data_variables': ['limit_kbps in 1..10000 (Int)', 'bucket in 0..limit (Int)', 'last_refill >= 0 (Real)',
                        'every clock reading (Real, non-decreasing)', 'new limit 0..10000 (Int)'],
-    'discriminants': ['number of polls k', 'position of the limit change', 'direction upload/download'],
+    'discriminants': ['number of polls k', 'position of the limit change', 'direction upload/download', 'which of n callers is scheduled at each step (callers harness)', 'connection state at the change'],
     'bounds': {'quick': {'polls_k': 4, 'limit_change_positions': 'each of 1..k-1', 'foreign_polls_per_round': '0..3'},
                'thorough': {'polls_k': 6, 'limit_change_positions': 'each of 1..k-1', 'foreign_polls_per_round': '0..3'}},
     'outside': ['double rounding: the code computes in IEEE doubles, the encoding in exact reals (see DESIGN §C20 floats)',
@@ -560,6 +696,16 @@ def jobs(tier):
             for (a, b) in ([(0, 1), (2, 1)] if q else [(0, 1), (2, 1), (1, 2), (1000, 1)]):
                 out.append({'harness': 'conn', 'fn': h_conn,
                             'params': {'op': op, 'conn_state': st, 'old_kbps': a, 'new_kbps': b}, 'requires': ['conn_end']})
+    import itertools as _it
+    orders = [[0, 1, 0, 1], [0, 1, 1, 0], [0, 0, 1, 1], [0, 1, 0, 0]] if q else \
+        [list(o) for o in _it.product(range(2), repeat=5) if o[0] == 0] + [[0, 1, 2, 0, 1, 2], [0, 1, 2, 2, 1, 0]]
+    for o in orders:
+        for low in (True, False):
+            out.append({'harness': 'callers', 'fn': h_callers, 'params': {'n': max(o) + 1, 'order': o, 'kbps': 1, 'low': low},
+                        'requires': ['callers_end'] + ([] if low else ['callers_granted'])})
+    for (a, b) in ([(0, 1)] if q else [(0, 1), (0, 2), (2, 1)]):
+        out.append({'harness': 'refund', 'fn': h_refund, 'params': {'old_kbps': a, 'new_kbps': b, 'drain': 8 * b + 1},
+                    'requires': ['drained', 'refund_end']})
     # reachability of the refuting pre-states from the constructor state, through the public setters
     out.append({'harness': 'window', 'fn': h_window, 'params': {'k': k, 'kbps': 1, 'from_init': True}, 'requires': ['window_end']})
     out.append({'harness': 'window', 'fn': h_window,
